@@ -1951,6 +1951,11 @@ class LazyCryptContext(CryptContext):
                 # another thread finished the job while we waited for the lock,
                 # or we were re-entered from CryptContext.__init__() below.
                 return
+            schemes = kwds.get("schemes")
+            if schemes is not None and not isinstance(schemes, (list, tuple, str)):
+                # a generator / iterator can be consumed only once: keep what it yields
+                # in the pending options, so that a retry after a failed load sees all of it.
+                kwds["schemes"] = list(schemes)
             self._lazy_busy = True
             self._lazy_kwds = None
             pending = kwds
